@@ -1075,7 +1075,7 @@ impl Sim {
                 let Ok(cw) = c.app.world().get_entity(*ce) else { continue };
                 for k in 0..NK {
                     let got = match (k, get_kind(&cw, k)) {
-                        (K_LINK, Some(Val::E(t))) => Some(to_server.get(&t).map(|x| Val::E(*x)).unwrap_or(Val::U(u32::MAX))),
+                        (K_LINK | K_ATT, Some(Val::E(t))) => Some(to_server.get(&t).map(|x| Val::E(*x)).unwrap_or(Val::U(u32::MAX))),
                         (_, g) => g,
                     };
                     if k == K_ONCE {
